@@ -474,9 +474,10 @@ def run_streams(rep):
         ("types", gen.typed_fields()),
         ("gated", gen.gated_cases()),
         ("unicode", gen.unicode_cases()),
+        ("sizes", gen.sized_cases()),
         ("exhaustive", gen.exhaustive(thorough)),
         ("random", gen.random_cases(rng, 60000 if thorough else 4000)),
-        ("config", gen.config_cases(rng, 2000 if thorough else 300)),
+        ("config", gen.config_grid() + gen.config_cases(rng, 2000 if thorough else 300)),
         ("malformed", gen.malformed_cases(rng, 5000 if thorough else 500)),
     ]
     for name, cases in streams:
